@@ -27,7 +27,9 @@ Oracle per family
   quantile/nanquantile (q scalar or vector, five methods, axis int/tuple, axis=None only when the
   array is a single chunk).
 
-Domain (statement + quantifier): axis lengths >= 1, 0-d arrays only for full reductions
+Domain (statement + quantifier): axis lengths >= 1 and chunk sizes >= 1 (an optional facet, OFF by default,
+``ZERO_SIZE_CHUNK_FRACTION``, inserts one zero-size chunk inside a non-empty axis; label feature ``zero-size-chunk``
+when dropping the empty chunk removes the symptom), 0-d arrays only for full reductions
 (axis None or ()), bool/int/uint/float/complex data with NaN / +-inf / -0.0 content (floats),
 datetime64/timedelta64 only for the order reductions (min/max/arg*), split_every in
 {2, 3, None, per-axis dict with values 2|3}, ddof in {0, 1, 2}, dtype= only as a same-kind cast
@@ -125,6 +127,11 @@ PENDING = {  # genuine on the unchanged tree; witnesses, locations and fix diffs
     "arg-reduction:axis=int&nan&lane-extreme-is-inf:raises@array/reductions.py:nanarg_agg":
         "nanargmin/nanargmax raise 'All NaN slice' for a lane whose only valid values are inf when a chunk of it is all-NaN (no fix)",
 }
+
+# Fraction of random cases whose chunking gets one zero-size chunk inside a non-empty axis.  OFF (0.0): the brief
+# keeps zero-length inputs out of C22 and C25 already reports the zero-size-chunk defects of scans / var / min / max.
+# With 0.12 the unchanged tree shows ~15 further label classes `<op>:zero-size-chunk...` (see final report / lead).
+ZERO_SIZE_CHUNK_FRACTION = 0.0
 
 RED = ["sum", "prod", "min", "max", "any", "all", "mean", "var", "std",
        "nansum", "nanprod", "nanmin", "nanmax", "nanmean", "nanvar", "nanstd", "moment"]
@@ -257,6 +264,10 @@ def cases(tier, seed):
             flavour = rng.choice(("small", "small", "clean", "nan", "inf", "normal", "ties"))
         d = {"op": op, "shape": shape, "dtype": dtype, "seed": rng.randrange(2 ** 31), "flavour": flavour,
              "chunks": [list(c) for c in A.rand_chunks(rng, shape)]}
+        if ZERO_SIZE_CHUNK_FRACTION and shape and rng.random() < ZERO_SIZE_CHUNK_FRACTION:
+            # a zero-size chunk inside a non-empty axis (facet switched off by default, see module docstring)
+            cs = d["chunks"][rng.randrange(nd)]
+            cs.insert(rng.randint(0, len(cs)), 0)
         axis = _rand_axis(rng, nd, fam)
         d["axis"] = axis
         red_axes = _norm_axes(axis, nd)
@@ -411,12 +422,11 @@ def _arg_feat(case, x):
     return f
 
 
-def _nonfinite_matters(case, symptom):
-    """Classifier helper (causal minimisation): does the symptom disappear when every NaN/inf/NaT of the
-    input is replaced by a finite value?  Only then is `nonfinite` part of the label."""
+def _variant_clears(case, symptom, **override):
+    """Classifier helper (causal minimisation): does the symptom disappear on a variant of the case?"""
     from ..core.ctx import Ctx
 
-    c2 = dict(case, _finite=True)
+    c2 = dict(case, **override)
     sub = Ctx(c2)
     try:
         run_case(c2, sub, _classify=False)
@@ -425,7 +435,29 @@ def _nonfinite_matters(case, symptom):
     return not any(v["label"].endswith(":" + symptom) for v in sub.violations)
 
 
+def _nonfinite_matters(case, symptom):
+    """does the symptom disappear when every NaN/inf/NaT of the input is replaced by a finite value?
+    Only then is `nonfinite` part of the label."""
+    return _variant_clears(case, symptom, _finite=True)
+
+
+def _has_zero_chunk(case):
+    return any(c == 0 for cs in case["chunks"] for c in cs)
+
+
+def _zero_chunk_matters(case, symptom):
+    """does the symptom disappear when the zero-size chunks are dropped from the chunking?"""
+    return _variant_clears(case, symptom, chunks=[[c for c in cs if c] for cs in case["chunks"]])
+
+
 def _feat(case, x, symptom, classify=True):
+    base = _feat0(case, x, symptom, classify)
+    if _has_zero_chunk(case) and (not classify or _zero_chunk_matters(case, symptom)):
+        return "zero-size-chunk" if base == "any" else "zero-size-chunk&" + base
+    return base
+
+
+def _feat0(case, x, symptom, classify=True):
     op = case["op"]
     if family(op) == "arg":
         return "&".join(_arg_feat(case, x))
@@ -498,7 +530,7 @@ def _exc_prefix(case, x):
     return "%s:%s" % (op, "&".join(f) if f else "any")
 
 
-def _raise_violation(ctx, case, x, ex, se):
+def _raise_violation(ctx, case, x, ex, se, classify=True):
     """dask raised inside the domain.  The label names the innermost dask frame but not the exception
     type: one mechanism may surface as different exception types depending on the chunk count."""
     import traceback
@@ -510,7 +542,12 @@ def _raise_violation(ctx, case, x, ex, se):
     fr = dask_frame(ex)
     where = "%s:%s" % fr if fr else "outside-dask"
     tb = "".join(traceback.format_exception(type(ex), ex, ex.__traceback__))[-3000:]
-    ctx.violation("%s:raises@%s" % (_exc_prefix(case, x), where), "%s: %s" % (type(ex).__name__, str(ex)[:400]),
+    prefix = _exc_prefix(case, x)
+    sym = "raises@%s" % where
+    if _has_zero_chunk(case) and (not classify or _zero_chunk_matters(case, sym)):
+        op_, f_ = prefix.split(":", 1)
+        prefix = "%s:%s" % (op_, "zero-size-chunk" if f_ == "any" else "zero-size-chunk&" + f_)
+    ctx.violation("%s:%s" % (prefix, sym), "%s: %s" % (type(ex).__name__, str(ex)[:400]),
                   traceback=tb, split_every=repr(se))
 
 
@@ -586,6 +623,8 @@ def run_case(case, ctx, _classify=True):
                case.get("q"), case.get("qmethod"), case["flavour"], case["seed"])
     ctx.nontrivial = A.has_split(chunks)
     ctx.distinct("op_axis_kind", (op, _axis_kind(axis), kd))
+    if _has_zero_chunk(case):
+        ctx.count("zero_size_chunk_cases")
     dx = da.from_array(x, chunks=chunks)
 
     # ---- build the NumPy reference and the dask thunk -----------------------------------------
@@ -655,7 +694,7 @@ def run_case(case, ctx, _classify=True):
                     ctx.unsupported(str(ex))
                     return
                 except Exception as ex:  # noqa: BLE001
-                    _raise_violation(ctx, case, x, ex, se)
+                    _raise_violation(ctx, case, x, ex, se, _classify)
                     return
                 results.append((se, r, rv))
                 # depth of the reduction tree: was an intermediate combine level exercised?
